@@ -48,6 +48,11 @@ def sameAsOriginal (orig : PBdd) (r : PBdd) : String :=
   let memo := r.st.resC.isEmpty && r.st.iteC.isEmpty
   s!"nodes={boolBit nodes} ac=1 names=1 uniq={boolBit uniq} deps={boolBit deps} cnt={boolBit cnt} memo-empty={boolBit memo}"
 
+/-- public (`nodes ac names deps cnt`, property channel) vs internal (`uniq memo-empty`,
+correspondence channel) fields of the same-as-original verdict -/
+def splitVerdict (pub : Bool) (v : String) : String :=
+  joinWith " " ((v.splitOn " ").filter (fun w => (w.startsWith "uniq=" || w.startsWith "memo-empty=") != pub))
+
 def persistStep (st : PersistSt) (l : String) (ws : List String) : Option (List String × PersistSt) :=
   match ws with
   | ["pnew", nv] =>
@@ -90,16 +95,18 @@ def persistStep (st : PersistSt) (l : String) (ws : List String) : Option (List 
     let orig := liveObject st.b.s
     let r := fixImport (importB (exportB orig))
     some ([l, s!"= T {dumpTable r.st.nodes} ac {showNats "," st.ac} names {st.names}",
-           "~ same-as-original " ++ sameAsOriginal orig r], { st with b := { st.b with s := r.st } })
+           "= internal " ++ splitVerdict false (sameAsOriginal orig r),
+           "~ same-as-original " ++ splitVerdict true (sameAsOriginal orig r)], { st with b := { st.b with s := r.st } })
   | ["prebuild"] =>
     let orig := liveObject st.b.s
     let r := rebuildP orig.st.nodes
     some ([l, s!"= T {dumpTable r.st.nodes} ac {showNats "," st.ac} names {st.names}",
-           "~ same-as-original " ++ sameAsOriginal orig r], { st with b := { st.b with s := r.st } })
+           "= internal " ++ splitVerdict false (sameAsOriginal orig r),
+           "~ same-as-original " ++ splitVerdict true (sameAsOriginal orig r)], { st with b := { st.b with s := r.st } })
   | "pmemocheck" :: nv :: exc :: t :: rest =>
     match nv.toNat?, parseTable t with
-    | some nv, some ns => some ([l, s!"~ {memoCheck nv (exc == "1") ns rest}"], st)
-    | _, _ => some ([l, "~ bad-request"], st)
+    | some nv, some ns => some ([l, s!"= audit {memoCheck nv (exc == "1") ns rest}"], st)
+    | _, _ => some ([l, "= bad-request"], st)
   | ["pfinish"] =>
     some ([l, s!"= {dumpTable st.b.s.nodes}", "~ " ++ showNats "," st.b.tts.toList], st)
   | _ => none
